@@ -50,6 +50,7 @@ func init() {
 		c.Proofs([]string{"GJS.Props.C20"}, []string{
 			"GJS.Props.C20.route_by_mapping", "GJS.Props.C20.route_default", "GJS.Props.C20.route_independent_of_other_mappings",
 			"GJS.Props.C20.begin_same_file_same_pkg_shares", "GJS.Props.C20.begin_same_file_other_pkg_conflicts", "GJS.Props.C20.begin_conflict_symmetric", "GJS.Props.C20.begin_external_never_conflicts",
+			"GJS.Props.C20.cliroute_file", "GJS.Props.C20.cliroute_pkg", "GJS.Props.C20.cliroute_order_free",
 			"GJS.Props.C20.qualified_iff_other_package",
 		})
 		factsOf(c, "mapRanges", "cliOrder")
